@@ -27,6 +27,7 @@ pub struct Case {
 }
 
 thread_local! {
+    static SECOND_WALK_ENTRIES: std::cell::Cell<u64> = std::cell::Cell::new(0);
     /// entries whose path is not valid UTF-8 (statistics)
     static NON_UTF8_SEEN: std::cell::Cell<u64> = std::cell::Cell::new(0);
 }
@@ -100,7 +101,7 @@ impl Property for C14 {
         320
     }
     fn required_counters(&self) -> Vec<&'static str> {
-        vec!["entries_checked", "glob_entries", "tree_entries", "residue_entries_observed", "rooted_entries", "prefixed_entries", "dotdot_entries", "noncanonical_base_entries", "depth_bounded_walks", "read_target_walks", "walks_from_current_directory"]
+        vec!["entries_checked", "glob_entries", "tree_entries", "residue_entries_observed", "rooted_entries", "prefixed_entries", "dotdot_entries", "noncanonical_base_entries", "depth_bounded_walks", "read_target_walks", "walks_from_current_directory", "entries_of_a_second_walk_of_the_same_glob"]
     }
     fn decode(&self, t: &mut Tape) -> Case {
         let tree = gen_tree(t, &TreeCfg { links: true, non_utf8: true, ..TreeCfg::default() });
@@ -303,6 +304,7 @@ fn check_case(case: &Case, st: &mut Stats) -> CheckResult {
                     }
                 }
                 let rooted = *shape == Shape::Rooted;
+                let given2_for_second_walk: Option<PathBuf> = s.root.parent().map(|p| p.to_path_buf());
                 let given = base_given.clone();
                 let errs = errors.clone();
                 let obs = observed.clone();
@@ -357,8 +359,29 @@ fn check_case(case: &Case, st: &mut Stats) -> CheckResult {
                             checked.push((norm(&p), d));
                         }
                     }
+                    // the same `Glob` value walked again, from another directory (the parent of the
+                    // tree root, which holds `t`, `s`, `u`): what a walk reports must depend on the
+                    // directory given to *this* walk, not on an earlier one
+                    if !rooted && !matches!(shape, Shape::Dots(_)) && !matches!(case.base, Base::Cwd(_)) {
+                        if let Some(other) = given2_for_second_walk.as_ref() {
+                            let what = format!("glob `{}` walked a second time, now from {:?} (first from {:?})", text, other, given);
+                            for (k, item) in glob.walk_with_behavior(other.clone(), beh).enumerate() {
+                                if k > cap {
+                                    break;
+                                }
+                                if let Ok(e) = item {
+                                    check_entry(&e, other, false, follow, &what)?;
+                                    SECOND_WALK_ENTRIES.with(|c| c.set(c.get() + 1));
+                                }
+                            }
+                        }
+                    }
                     Ok(checked)
                 });
+                let n2 = SECOND_WALK_ENTRIES.with(|c| c.replace(0));
+                if n2 > 0 {
+                    st.add("entries_of_a_second_walk_of_the_same_glob", n2);
+                }
                 let ctx = || format!(" [tree {:?}, base {:?}, shape {:?}]", case.tree.nodes.iter().map(|n| n.path.as_str()).collect::<Vec<_>>(), case.base, shape);
                 match r {
                     Ok(Ok(checked)) => {
